@@ -80,6 +80,10 @@ type Scenario struct {
 	Run    func(s *kernel.Sim, c *Case)
 	// Setup runs outside the bubble, once per case, before Run (optional).
 	Setup func(c *Case)
+	// WallLimit, if > 0, is a real-time budget per case: exceeding it means the code
+	// under test spins without reaching a simulator primitive, which the scenario
+	// treats as a violation (class "no-progress"). The process exits after reporting.
+	WallLimit time.Duration
 }
 
 // Result is what one worker process reports.
@@ -142,9 +146,30 @@ func init() {
 }
 
 // RunCase executes one case in a fresh bubble.
+// OnStuck is called (from a goroutine outside the bubble, on the real clock) when a
+// case of a scenario with a WallLimit does not finish in time: code under test is
+// spinning without ever reaching a simulator primitive. It must not return.
+var OnStuck func(sc *Scenario, c *Case)
+
+// CurrentCaseFile, when set, receives the descriptor of the case about to run for
+// scenarios with a WallLimit, so that a crash of the whole process (e.g. a runaway
+// allocation hitting the address-space limit) can be attributed to it.
+var CurrentCaseFile string
+
 func RunCase(t *testing.T, sc *Scenario, c *Case, trace bool) (out RunOutcome) {
 	if sc.Setup != nil {
 		sc.Setup(c)
+	}
+	if sc.WallLimit > 0 {
+		if CurrentCaseFile != "" {
+			b, _ := json.Marshal(c)
+			_ = os.WriteFile(CurrentCaseFile, b, 0o644)
+		}
+		if OnStuck != nil {
+			cc := *c
+			tm := time.AfterFunc(sc.WallLimit, func() { OnStuck(sc, &cc) })
+			defer tm.Stop()
+		}
 	}
 	var tape *kernel.Tape
 	if c.UseTape {
@@ -276,6 +301,24 @@ func runMode(t *testing.T, property string, scenarios []*Scenario) {
 	hashes := map[uint64]struct{}{}
 	seenSig := map[string]bool{}
 	start := time.Now()
+	if out := os.Getenv("VERIF_OUT"); out != "" {
+		CurrentCaseFile = out + ".cur"
+	}
+	OnStuck = func(sc *Scenario, c *Case) {
+		// the bubble is stuck in a spin; nothing else in this process can be trusted to finish
+		res.Violations = append(res.Violations, FoundViolation{Violation: kernel.Violation{Class: "no-progress", Sig: sc.Name + "/" + stuckSig(c),
+			Msg: fmt.Sprintf("the code under test did not reach a simulator primitive or return within %v of real time (spinning on peer-controlled input)", sc.WallLimit)}, Case: *c})
+		res.Evaluations++
+		res.WallS = time.Since(start).Seconds()
+		res.Nontrivial = len(hashes)
+		res.Hashes = nil
+		if out := os.Getenv("VERIF_OUT"); out != "" {
+			b, _ := json.Marshal(res)
+			_ = os.WriteFile(out, b, 0o644)
+		}
+		fmt.Println("STUCK-CASE: reported as no-progress; exiting")
+		os.Exit(0)
+	}
 
 	// Budget split: enumerated scenarios first (they should complete), random ones share the rest by weight.
 	var enum, random []*Scenario
@@ -462,8 +505,27 @@ func sameViolation(vs []kernel.Violation, want kernel.Violation) bool {
 	return false
 }
 
+// StuckSig lets a scenario name the shape of a stuck case (entry point, mutation
+// class) for the violation signature; the default is the empty string.
+var StuckSig func(c *Case) string
+
+func stuckSig(c *Case) string {
+	if StuckSig != nil {
+		return StuckSig(c)
+	}
+	return ""
+}
+
 func replayMode(t *testing.T, sc *Scenario, rf *ReplayFile) {
 	c := rf.Case
+	OnStuck = func(sc *Scenario, c *Case) {
+		if rf.Violation.Class == "no-progress" {
+			fmt.Println("REPLAY-STATUS: reproduced (no progress within", sc.WallLimit, ")")
+		} else {
+			fmt.Println("REPLAY-STATUS: internal-error: case stuck")
+		}
+		os.Exit(0)
+	}
 	oc := RunCase(t, sc, &c, true)
 	status := "not-reproduced"
 	if oc.Internal != "" {
